@@ -52,7 +52,7 @@ def _case(rng, **over):
         else:
             c["calls"].append({"op": "resend", "send_only": rng.random() < 0.4})
         if rng.random() < 0.25:
-            c["calls"][-1]["before"] = rng.choice(["listen_round_trip", "listen_round_trip", "rx_phase", "rx_phase_power", "rx_phase_with"])
+            c["calls"][-1]["before"] = rng.choice(["listen_round_trip", "listen_round_trip", "rx_phase", "rx_phase_power", "rx_phase_with", "fill_write_only", "fill_write_only"])
     c.update(over)
     return c
 
@@ -216,7 +216,16 @@ def _run(ctx, case, link, prefix):
         else:
             rr.rx_fifo.clear()
         before = call.get("before")
-        if before == "listen_round_trip":
+        if before == "fill_write_only" and call["op"] == "send":
+            # the documented non-blocking use: three payloads loaded without starting them, the
+            # application looks at the radio once (update()), then changes its mind and send()s
+            tx.ce_pin = False  # send() leaves CE high; with CE high a loaded payload starts at once
+            for q in range(3):
+                tx.write(b"queued-%d" % q, write_only=True)
+            tx.update()
+            failed_payload = None
+            ctx.count("write_only_fills_before_send")
+        elif before == "listen_round_trip":
             # a receiving phase between two transmissions (nothing received, no ACK payloads loaded)
             tx.listen = True
             node.idle(300000)
